@@ -116,7 +116,7 @@ PROPS = {
                     "quick": {"params": "n=3,tail=1,cutextra=0"},
                     "thorough": {"params": "n=4,tail=2,cutextra=1", "harness-timeout": 3000, "max-paths": 5000000}}],
         "cross_solver": {"run": "^VH_C17_(long_heads_tag260|long_heads_tag261|cut_bool)$"},
-        "level": "model_checking",
+        "level": "model_checking", "engine_only_msgs": "leaves no trace in package state",
         "bounds": {
             "quick": "arbitrary inputs of 0..3 symbolic bytes through Cbor2JsonManyObjects and the three Decode* entry points; directed inputs = [context prefix] + head of every major type with additional information 24..31 + fully symbolic 1/2/4/8-byte argument + 0..1 arbitrary byte, in 8 contexts (top level, inside indefinite map, inside indefinite array, behind tags 1, 63, 260, 261, 263); cut points: every prefix of two-event streams built with the real encoder (8 value kinds, symbolic values)",
             "thorough": "arbitrary inputs up to 4 bytes, 0..2 trailing bytes after the directed heads, a second symbolic field and a symbolic second event in the cut-point streams",
